@@ -691,7 +691,69 @@ fn mutated_case(rng: &mut Rng, sink: &mut Sink) {
     sink.emit(format!("representable {} {}", if fragment { 1 } else { 0 }, original.wire()), if same { "true" } else { "false" }.to_string());
 }
 
+/// Attribute names whose prefix and local name run into each other when the colon is dropped
+/// (`a:bc` next to `ab:c` next to `abc`): distinct qualified names on one element (seed C01k: a
+/// duplicate test keyed by prefix + local name without the colon).  Implementation-only oracle.
+fn name_collision_cases(rng: &mut Rng, sink: &mut Sink, n: usize) {
+    const POOL: [&str; 7] = ["a", "ab", "abc", "b", "bc", "c", "ca"];
+    for _ in 0..n {
+        let mut xot = Xot::new();
+        let root = xot.add_name("r");
+        let e = xot.new_element(root);
+        let mut prefixes: Vec<&str> = vec![];
+        for p in POOL.iter() {
+            if rng.chance(1, 2) {
+                prefixes.push(p);
+            }
+        }
+        for (i, p) in prefixes.iter().enumerate() {
+            let pid = xot.add_prefix(p);
+            let ns = xot.add_namespace(&format!("urn:n{}", i));
+            xot.namespaces_mut(e).insert(pid, ns);
+        }
+        let mut seen: Vec<(usize, &str)> = vec![];
+        for _ in 0..(2 + rng.below(4)) {
+            let l = *rng.pick(&POOL);
+            let pi = if prefixes.is_empty() || rng.chance(1, 3) { usize::MAX } else { rng.below(prefixes.len()) };
+            if seen.contains(&(pi, l)) {
+                continue;
+            }
+            seen.push((pi, l));
+            let name = if pi == usize::MAX {
+                xot.add_name(l)
+            } else {
+                let ns = xot.add_namespace(&format!("urn:n{}", pi));
+                xot.add_name_ns(l, ns)
+            };
+            xot.attributes_mut(e).insert(name, "v".to_string());
+        }
+        let doc = xot.new_document_with_element(e).unwrap();
+        sink.stat("rt.name-collision.cases");
+        let what = format!("attributes {:?} with prefixes {:?}", seen.iter().map(|(p, l)| if *p == usize::MAX { l.to_string() } else { format!("{}:{}", prefixes[*p], l) }).collect::<Vec<_>>(), prefixes);
+        let s = match crate::common::guarded(|| xot.to_string(doc)) {
+            Some(Ok(s)) => s,
+            other => {
+                sink.fail("C01", "C01:serialise-error", &format!("to_string of an element with {} gave {:?}", what, other.map(|r| r.err())), &[what.clone()]);
+                continue;
+            }
+        };
+        match crate::common::guarded(|| xot.parse(&s)) {
+            Some(Ok(d2)) => {
+                if !xot.deep_equal(doc, d2) {
+                    sink.fail("C01", "C01:reparse-differs", &format!("`{}` reparses to a tree that is not deep_equal", s), &[what.clone(), s.clone()]);
+                }
+            }
+            Some(Err(e)) => sink.fail("C01", "C01:reparse-rejected", &format!("`{}` (serialisation of an element with {}) is refused: {:?}", s, what, e), &[what.clone(), s.clone()]),
+            None => sink.fail("C01", "C01:reparse-panics", &format!("parse of `{}` panicked", s), &[what.clone(), s.clone()]),
+        }
+    }
+}
+
 pub fn run(seed: u64, count: usize, _tier: &str, sink: &mut Sink) {
+    {
+        let mut rng = Rng::new(seed ^ 0xC011);
+        name_collision_cases(&mut rng, sink, if _tier == "quick" { 150 } else { 3000 });
+    }
     let mut rng = Rng::new(seed ^ 0x0C01);
     // own stream for the parameter cases: the cases above are the ones they were
     let mut prng = Rng::new(seed ^ 0xC01_CDA7A);
